@@ -598,6 +598,43 @@ fn abandoned_fibers_keep_captured_variables() -> Vec<Expect> {
     out
 }
 
+
+/// Every kind of value as the argument of a fiber's first call and of a resume: the parameter (first call)
+/// and the pending yield expression (resume) receive exactly that value - nil, false and other "empty"
+/// values included - and the fiber's own locals, declared before and after, are where the source says.
+pub fn argument_values() -> Vec<Expect> {
+    let vals: [(&str, &str); 10] = [("nil", "nil"), ("false", "false"), ("true", "true"), ("0", "0"), ("\"\"", ""), ("[]", "[]"), ("(1,)", "(1,)"), ("7", "7"), ("\"s\"", "s"), ("[nil]", "[nil]")];
+    let mut out = Vec::new();
+    for (first, first_p) in vals {
+        for (second, second_p) in vals {
+            for in_frame in [false, true] {
+                let body = "var a = \"local a\"; print([x, a]); var b = \"local b\"; var y = Fiber.yield(x); var c = \"local c\"; print([x, y, a, b, c]); return [x, y];";
+                let def = if in_frame {
+                    format!("fn body(x) {{ {} }}\nvar f = Fiber.new(|x| {{ var outer = \"outer local\"; var r = body(x); print(outer); return r; }});\n", body)
+                } else {
+                    format!("var f = Fiber.new(|x| {{ {} }});\n", body)
+                };
+                let src = format!("{}print(f.call({}));\nprint(f.call({}));\nprint(f.has_finished());\n", def, first, second);
+                let mut exp = vec![format!("[{}, local a]", first_p), first_p.to_string(), format!("[{}, {}, local a, local b, local c]", first_p, second_p)];
+                if in_frame {
+                    exp.push("outer local".to_string());
+                }
+                exp.push(format!("[{}, {}]", first_p, second_p));
+                exp.push("true".to_string());
+                out.push(Expect {
+                    family: "argument_values_of_first_call_and_resume",
+                    request: Request { op: "run".into(), snippets: vec![src], fuel: Some(1_000_000), ..Default::default() },
+                    out: vec![exp],
+                    end: vec!["ok".into()],
+                    describe: json!({"first_call": first, "resume": second, "yield_from_a_nested_frame": in_frame}),
+                    nontrivial: true,
+                });
+            }
+        }
+    }
+    out
+}
+
 pub fn run(ctx: &Ctx) -> Report {
     let mut report = Report::new();
     let active = active_findings(ctx, &mut report);
@@ -796,7 +833,7 @@ pub fn run(ctx: &Ctx) -> Report {
     expect::fill(
         &mut report,
         &stats,
-        "for every pair of fiber scripts (fiber 0: every script up to the length bound over {print, yield value, yield nothing, x = yield, call the other fiber with/without argument, call itself, has_finished, return, throw} under each wrapper {none, nested function frame, try/catch, local kept across suspensions, captured variable, try/finally around the script, script inside a finally block entered by an exception, a local declared just before a try/catch around the script and printed after it}, with and without a parameter; fiber 1: representative scripts) a breadth-first search over sequences of main-program actions {call, call with argument, call with two arguments, has_finished, yield at top level} with canonical hashing of the model state; every transition is replayed on the real VM (program = definitions + action path) and must print exactly the model's labels; the fiber/raw-pointer agreement monitor runs at every instruction. For the plain wrapper every transition is replayed a second time with the fibers defined in an imported module and a main program that updates and prints a global of its own straight after every action. Plus fibers abandoned while suspended: counters (closures over a local of the fiber's body, of a function it called, of a fiber it called) handed out by fibers that nothing refers to afterwards, every sequence of four actions over {make the next counter, step counter 0/1/2, look at all, run three other fibers}, each counter's expected numbers computed by the explorer; swept objects quarantined, any touch of freed memory is a violation.",
+        "for every pair of fiber scripts (fiber 0: every script up to the length bound over {print, yield value, yield nothing, x = yield, call the other fiber with/without argument, call itself, has_finished, return, throw} under each wrapper {none, nested function frame, try/catch, local kept across suspensions, captured variable, try/finally around the script, script inside a finally block entered by an exception, a local declared just before a try/catch around the script and printed after it}, with and without a parameter; fiber 1: representative scripts) a breadth-first search over sequences of main-program actions {call, call with argument, call with two arguments, has_finished, yield at top level} with canonical hashing of the model state; every transition is replayed on the real VM (program = definitions + action path) and must print exactly the model's labels; the fiber/raw-pointer agreement monitor runs at every instruction. For the plain wrapper every transition is replayed a second time with the fibers defined in an imported module and a main program that updates and prints a global of its own straight after every action. Plus fibers abandoned while suspended: counters (closures over a local of the fiber's body, of a function it called, of a fiber it called) handed out by fibers that nothing refers to afterwards, every sequence of four actions over {make the next counter, step counter 0/1/2, look at all, run three other fibers}, each counter's expected numbers computed by the explorer; swept objects quarantined, any touch of freed memory is a violation. Plus every ordered pair of ten argument values (nil, false, true, 0, the empty string, an empty vec, a tuple, ...) as the argument of a one-parameter fiber's first call and of its resume, yielding from the body and from a nested frame: parameter, yield value and the fiber's locals as the source says.",
         json!({"fibers": nf, "script_length": script_len, "main_sequence_length": main_depth}),
     );
     report.cov("states", json!(total_states));
@@ -817,6 +854,13 @@ pub fn run(ctx: &Ctx) -> Report {
         let n = cases.len();
         let ms = expect::run_expect(ctx, &ctx.runner_checked, cases.into_iter(), &|_e, r| if r.uaf.is_empty() { None } else { Some(format!("use after free: {:?}", r.uaf)) }, &|_e, _p| None);
         report.cov("abandoned_fiber_programs", json!(n));
+        report.violations.extend(ms.violations);
+    }
+    {
+        let cases = argument_values();
+        let n = cases.len();
+        let ms = expect::run_expect(ctx, &ctx.runner_checked, cases.into_iter(), &|_e, _r| None, &|_e, _p| None);
+        report.cov("argument_value_programs", json!(n));
         report.violations.extend(ms.violations);
     }
     // yield insertion: whole programs of the other properties' corpora, suspended after every statement
